@@ -15,7 +15,7 @@ PROPERTY = 'C03'
 RULE = ("stateless exploration of call histories on 9 networks (N1 filter+stiffness+sparse LinSolve, N2 block rhs, N3 "
         "CG(SOR) with initial-guess memory, N4 sparse EigenSolve, N5 OverhangFilter+KS, N6 SystemOfEquations, N7 "
         "StaticCondensation, N8 complex dynamic stiffness + LinSolve + ComplexNorm, N9 bare dense LinSolve whose matrix "
-        "table holds different matrix classes); every protocol-respecting sequence over {I0,I1,I2,R,S0,S1,B,Z} up to the "
+        "table holds different matrix classes, N10 the same with definite -> indefinite -> definite symmetric matrices); every protocol-respecting sequence over {I0,I1,I2,R,S0,S1,B,Z} up to the "
         "depth bound, each followed by clean cycles for all (k,j) (the first fresh after the sequence, rotating); on every "
         "intermediate state: after Z no sensitivity is left, B without a seed changes nothing, R,R equals R. "
         "Non-trivial = the sequence contains at least one R; distinct by (network, sequence, first clean cycle)")
@@ -24,7 +24,7 @@ ASSUMPTIONS = ["documented memories (Scaling first value, damped AggScaling, wri
                "pymoto.core_objects.get_init_str (diagnostic only) replaced by a constant"]
 
 OPS = ['I0', 'I1', 'I2', 'R', 'S0', 'S1', 'B', 'Z']
-NETS = ['N1', 'N2', 'N3', 'N4', 'N5', 'N6', 'N7', 'N8', 'N9']
+NETS = ['N1', 'N2', 'N3', 'N4', 'N5', 'N6', 'N7', 'N8', 'N9', 'N10']
 
 
 def _xs(nel, t):
@@ -117,6 +117,19 @@ def build(name, t=0):
         sources, tables = [A, b], [[S, b.state], [N, b.state], [C, b.state]]
         outs = [u, u]
         seeds = [np.array([1.0, 0.0, 0.0]), np.array([0.3, -0.7, 1.1])]
+        x = A
+    elif name == 'N10':
+        # dense symmetric matrices with positive diagonal: definite -> indefinite -> definite (Cholesky with LDL fallback)
+        P1 = np.array([[4., 1, 0.5], [1, 3, 0.2], [0.5, 0.2, 5]])
+        IN = np.array([[1., 3, 0.5], [3, 1, 0.2], [0.5, 0.2, 2]])
+        P2 = np.array([[3., -1, 0.4], [-1, 4, 0.6], [0.4, 0.6, 2.5]])
+        A = pym.Signal('A', P1.copy())
+        b = pym.Signal('b', np.stack([np.array([1., 2., -1.]), np.array([0.5, -1.0, 2.0])], axis=1))
+        net = pym.Network()
+        u = net.append(pym.LinSolve([A, b]))
+        sources, tables = [A, b], [[P1, b.state], [IN, b.state], [P2, b.state]]
+        outs = [u, u]
+        seeds = [np.array([[1.0, 0.0], [0.0, 0.0], [0.0, 1.0]]), np.array([[0.3, -0.7], [1.1, 0.2], [-0.4, 0.9]])]
         x = A
     sigs = []
     for m in net.mods:
@@ -273,7 +286,7 @@ def run_history(name, t, seq, cycles):
             hist_k.append(k)
             st, gs = clean_cycle(w, k, j)
             rst, rgs = ref
-            changed = len(set(hist_k)) > 1 and name == 'N9'
+            changed = len(set(hist_k)) > 1 and name in ('N9', 'N10')
             for idx, (a, b) in enumerate(zip(st, rst)):
                 ok, d = close(a, b, tol)
                 if not ok:
@@ -287,7 +300,7 @@ def run_history(name, t, seq, cycles):
     except Exception as e:  # noqa
         if not _in_repo(e):
             raise
-        changed = len(set(hist_k)) > 1 and name == 'N9'
+        changed = len(set(hist_k)) > 1 and name in ('N9', 'N10')
         return nops, ('raised', {'net': name, 'exc': type(e).__name__, 'input_class_changed': changed},
                       {'seq': seq, 'cycles': cycles, 'error': ''.join(traceback.format_exception_only(type(e), e))[-500:]})
     return nops, None
